@@ -22,4 +22,11 @@ impl<T> LocatedSpan<T> {
     { unimplemented!() }
 }
 
+/// `span.fragment().lines().next().map_or(0, str::len)`: byte length of what is left of the
+/// span's first line
+#[verifier::external_body]
+pub fn __first_line_len<T>(span: &LocatedSpan<T>) -> (r: usize)
+    ensures r <= isize::MAX as usize
+{ unimplemented!() }
+
 } // verus!
